@@ -1,251 +1,971 @@
 """C09 — a merged store equals the concatenation of its inputs.
 
-R1  order preservation (dataflow): the list returned by _check_merge_arguments
-    is iterated unchanged by the metadata loop, the relocation loop and the
-    merged-index builder; _open_merged_store derives file order, datasets,
-    dimensions, groups and the cumulative size table from metadata['stores']
-    through order-preserving comprehensions only.
-R2  refusals present: differing field sets and mixed identifier use raise (their
-    position before any file-system effect is C10-R2).
-R3  locate arithmetic: bisect_left(size_index, index + 1) (or the equivalent
-    bisect_right(size_index, index)), bound check before use, local index
-    relative to the located file.
-R6  the merged index is built under exactly the condition "every input is
-    identified" (the reader of a merged store consults nothing else).
-R4  the metadata records, per input, the file name under which it is moved
-    and the order of `stores` is that of the loop.
+All rules are decided on *provenance*, not on statement shapes: scalar values are followed along the symbolic paths
+of a function (guard clauses, temporaries, hoisted values, tuple / NamedTuple packing, private helpers of the module
+are looked through - `sa.rules.c07.Sym`), list values are followed as "order-preserving image of a source list with
+element function f" (`Prov`): through `list()/tuple()`, comprehensions and generator expressions without filter,
+`zip/enumerate`, accumulator loops (`acc = []; for x in S: ...; acc.append(E)` with exactly one append per iteration)
+and helper parameters.  `sorted/set/reversed`, slices, filters and in-place `.sort()/.reverse()/shuffle` break the
+image.  A derivation the engine does not know is UNDECIDED, never a violation.
+
+R1  order preservation.  (a) `_check_merge_arguments` returns, on every return path, the caller's list element for
+    element, or the inclusive ascending expansion `range(first, last + 1)` of the numbered pattern.  (b) In `merge`
+    the `stores` entry of the metadata document, the list handed to the merged-index builder and the relocation loop
+    are images of that returned list (relocation: of all its elements, in any order).  (c) `_open_merged_store`
+    derives file paths, datasets, dimensions, variables, every group list and the cumulative size table from
+    `metadata['stores']` through order-preserving images only; the size table is the running sum of the lengths of
+    exactly the dimensions stored next to it.
+R2  refusals present (their position before any file-system effect is C10-R2): some raise path of `merge` is taken
+    whenever an input's field-set names differ from the reference taken from the first input (a symmetric test, and
+    the reference is bound only while it is still unset), and whenever identified and unidentified inputs are mixed
+    (aggregate all/any test, or a per-input test that covers both mixed cases - decided by truth table).
+R3  locate arithmetic, per path of `_load_trajectory` to a record read under "size table exists": the file position
+    is bisect_left(table, index + 1) / bisect_right(table, index) of the table of the *same* file set whose groups
+    are read, the position is bounded before use, and the record index is the requested index relative to the located
+    file (index - table[file]; index - table[file] + len(dim[file]); index - table[file - 1] behind file > 0).
+R4  the metadata records, per input, (the base name under which the input is moved into the output directory, the
+    length of the store opened on that input); the relocation moves the input itself to <output>/<that name>.
+R5  merged index offsets (C08-R3).
+R6  the merged index is built under exactly the condition "every input is identified" (the reader of a merged store
+    consults nothing else): every guard of the builder call is that condition or holds for every number of inputs.
 """
 
 from __future__ import annotations
 
 import ast
+import copy
 
-from ..astutil import first_stmt, last_stmt  # noqa: F401
-from ..astutil import (call_name, calls_in, guards_of, kwarg, norm, single_def_value, stmt_of,
-                       stores_to, walk_no_nested)
-from ..loader import dotted_name
+from ..astutil import (MUTATING_METHODS, ancestors, arg_or_kw, assigned_names, call_name, conjuncts, eval_pred,
+                       guards_of, kwarg, norm, stmt_of, walk_no_nested)
+from ..loader import parent
+from ..resolve import resolve_class_call
+from .c07 import Sym, SymUndecided, _base_id, _diff, _is_name, _nf, _strip, canon_fact, locate_paths
 
 STORE = 'trajectories/store.py'
-ORDER_BREAKERS = {'sorted', 'set', 'reversed', 'frozenset', 'dict', 'random.shuffle', 'random.sample'}
+ELEM = '__elem__'
+REORDERING = {'sorted': 'sorted() re-orders the elements', 'set': 'a set has no order and drops repeats',
+              'frozenset': 'a set has no order and drops repeats', 'reversed': 'reversed() inverts the order',
+              'random.sample': 'random.sample() re-orders', 'dict.fromkeys': 'drops repeats'}
+TRANSPARENT = {'list', 'tuple', 'iter', 'copy.copy'}
 
 
-def order_preserving(e: ast.expr, src: set[str], func: ast.AST, depth=0) -> tuple[bool, str]:
-    """Is e an order-preserving image of (an expression whose text is in) src?"""
-    if depth > 16:
-        return False, 'derivation too deep'
-    txt = norm(e)
-    if txt in src:
-        return True, txt
-    if isinstance(e, ast.Name):
-        d = single_def_value(func, e.id)
-        if d is None:
-            return False, f'{e.id} has no single definition'
-        return order_preserving(d, src, func, depth + 1)
-    if isinstance(e, ast.ListComp) and len(e.generators) == 1 and not e.generators[0].ifs:
-        return order_preserving(e.generators[0].iter, src, func, depth + 1)
-    if isinstance(e, ast.Call):
-        cn = call_name(e)
-        if cn in ('list', 'tuple', 'itertools.accumulate', 'accumulate', 'enumerate') and e.args:
-            return order_preserving(e.args[0], src, func, depth + 1)
-        if cn.endswith('.get') and e.args and isinstance(e.func, ast.Attribute):
-            # metadata.get('stores', []) ~ metadata['stores']
-            k = e.args[0]
-            alt = f"{norm(e.func.value)}[{norm(k)}]"
-            if alt in src:
-                return True, alt
-        if cn in ORDER_BREAKERS:
-            return False, f'{cn}() does not preserve the given order'
-    if isinstance(e, ast.Subscript) and isinstance(e.slice, ast.Slice):
-        return False, 'slice drops or reorders elements'
-    return False, f'unrecognised derivation {txt[:60]}'
+# ------------------------------------------------------------------------------------------------ provenance
 
+class Seq:
+    """the list `[elem(e) for e in <src>]`, in the order of src and of the same length"""
+
+    def __init__(self, src: str, elem: ast.expr):
+        self.src, self.elem = src, elem
+
+    def __repr__(self):
+        return f'[{_strip(self.elem)} for {ELEM} in {self.src}]'
+
+
+class Broken:
+    def __init__(self, why: str, definite: bool):
+        self.why, self.definite = why, definite
+
+
+def _elem() -> ast.Name:
+    return ast.Name(id=ELEM, ctx=ast.Load())
+
+
+def subst(e: ast.expr, mapping: dict[str, ast.expr]) -> ast.expr:
+    class T(ast.NodeTransformer):
+        def visit_Name(self, n):
+            if n.id in mapping:
+                return copy.deepcopy(mapping[n.id])
+            return n
+    return T().visit(copy.deepcopy(e))
+
+
+def bind_target(target: ast.expr, value: ast.expr, tag: str = '') -> dict[str, ast.expr]:
+    """names bound by `for <target> in …` / a comprehension target -> expression over the iterated element"""
+    if isinstance(target, ast.Name):
+        return {target.id + tag: value}
+    out = {}
+    if isinstance(target, (ast.Tuple, ast.List)) and not any(isinstance(x, ast.Starred) for x in target.elts):
+        for i, t in enumerate(target.elts):
+            comp = value.elts[i] if isinstance(value, (ast.Tuple, ast.List)) and len(value.elts) == len(target.elts) \
+                else ast.Subscript(value=copy.deepcopy(value), slice=ast.Constant(value=i), ctx=ast.Load())
+            out.update(bind_target(t, comp, tag))
+    return out
+
+
+def canon(e: ast.expr) -> str:
+    """text of a path-valued expression with the conversions that do not change which file it names removed"""
+    class T(ast.NodeTransformer):
+        def visit_Call(self, n):
+            self.generic_visit(n)
+            cn = call_name(n)
+            if cn in ('Path', 'str', 'os.fspath', 'pathlib.Path', 'os.path.normpath') and len(n.args) == 1 and not n.keywords:
+                return n.args[0]
+            if cn == 'os.path.basename' and len(n.args) == 1:
+                return ast.Attribute(value=n.args[0], attr='name', ctx=ast.Load())
+            if cn == 'os.path.join' and len(n.args) >= 2:
+                out = n.args[0]
+                for a in n.args[1:]:
+                    out = ast.BinOp(left=out, op=ast.Div(), right=a)
+                return out
+            return n
+    return _strip(T().visit(copy.deepcopy(e)))
+
+
+class Prov:
+    def __init__(self, ctx, prog, m, fn, root, opaque=()):
+        """root(expr) -> key of the source list that expr denotes, or None"""
+        self.ctx, self.prog, self.m, self.fn, self.root, self.opaque = ctx, prog, m, fn, root, set(opaque)
+        self.origin: dict[str, object] = {}
+        self.lists: set[str] = set()           # local names that hold an image of a source
+
+    def sym(self, fn, target=None) -> Sym:
+        s = Sym(self.prog, fn)
+        s.opaque = self.opaque
+        s.run(target)
+        self.origin.update(s.origin)
+        return s
+
+    # -- simplification of element expressions: field of a freshly built record, component of a tuple
+    def simp(self, e: ast.expr) -> ast.expr:
+        prov = self
+
+        class T(ast.NodeTransformer):
+            def visit_Attribute(self, n):
+                self.generic_visit(n)
+                v = n.value
+                if isinstance(v, ast.Call):
+                    f = prov._record_fields(v)
+                    if f is not None and n.attr in f:
+                        return f[n.attr]
+                return n
+
+            def visit_Subscript(self, n):
+                self.generic_visit(n)
+                if isinstance(n.slice, ast.Constant) and isinstance(n.slice.value, int):
+                    i = n.slice.value
+                    if isinstance(n.value, (ast.Tuple, ast.List)) and -len(n.value.elts) <= i < len(n.value.elts):
+                        return n.value.elts[i]
+                    if isinstance(n.value, ast.Call):
+                        f = prov._record_fields(n.value)
+                        if f is not None and 0 <= i < len(f):
+                            return list(f.values())[i]
+                return n
+        return T().visit(copy.deepcopy(e))
+
+    def _record_fields(self, c: ast.Call):
+        name = call_name(c).split('.')[-1]
+        cls = next((k for q, k in self.m.classes.items() if q.split('.')[-1] == name), None)
+        if cls is None or any(isinstance(a, ast.Starred) for a in c.args):
+            return None
+        fields = list(cls.annotated_fields().keys())
+        if not fields or len(c.args) > len(fields):
+            return None
+        out = dict(zip(fields, c.args))
+        for k in c.keywords:
+            if k.arg in fields:
+                out[k.arg] = k.value
+        return {f: out[f] for f in fields if f in out} if len(out) == len(fields) else None
+
+    # -- sequences
+    def seq(self, e: ast.expr, depth: int = 0):
+        if depth > 12:
+            return Broken('derivation too deep', False)
+        key = self.root(e)
+        if key is not None:
+            return Seq(key, _elem())
+        if isinstance(e, ast.Name):
+            fn = self.origin.get(e.id, self.fn)
+            return self.accumulator(fn, _base_id(e.id), depth)
+        if isinstance(e, (ast.ListComp, ast.GeneratorExp)):
+            if len(e.generators) != 1:
+                return Broken('nested comprehension', False)
+            g = e.generators[0]
+            if g.ifs:
+                return Broken('the comprehension filters elements out', True)
+            s = self.seq(g.iter, depth + 1)
+            if isinstance(s, Broken):
+                return s
+            return Seq(s.src, self.simp(subst(e.elt, bind_target(g.target, s.elem))))
+        if isinstance(e, ast.Call):
+            cn = call_name(e)
+            if cn in REORDERING:
+                return Broken(f'{cn}(): {REORDERING[cn]}', True)
+            if cn in TRANSPARENT and len(e.args) == 1 and not e.keywords:
+                return self.seq(e.args[0], depth + 1)
+            if isinstance(e.func, ast.Attribute) and e.func.attr == 'copy' and not e.args:
+                return self.seq(e.func.value, depth + 1)
+            if cn == 'enumerate' and e.args:
+                s = self.seq(e.args[0], depth + 1)
+                return s if isinstance(s, Broken) else \
+                    Seq(s.src, ast.Tuple(elts=[ast.Name(id='__index__', ctx=ast.Load()), s.elem], ctx=ast.Load()))
+            if cn == 'zip' and e.args and not e.keywords:
+                parts = [self.seq(a, depth + 1) for a in e.args]
+                bad = next((p for p in parts if isinstance(p, Broken)), None)
+                if bad is not None:
+                    return bad
+                if len({p.src for p in parts}) != 1:
+                    return Broken('zip of lists of different sources', False)
+                return Seq(parts[0].src, ast.Tuple(elts=[p.elem for p in parts], ctx=ast.Load()))
+            if cn in ('map',) and len(e.args) == 2:
+                s = self.seq(e.args[1], depth + 1)
+                return s if isinstance(s, Broken) else \
+                    Seq(s.src, ast.Call(func=e.args[0], args=[s.elem], keywords=[]))
+            if cn in ('filter', 'itertools.islice', 'random.shuffle'):
+                return Broken(f'{cn}() drops or re-orders elements', True)
+        if isinstance(e, ast.Subscript) and isinstance(e.slice, ast.Slice):
+            sl = e.slice
+            if sl.lower is None and sl.upper is None and sl.step is None:
+                return self.seq(e.value, depth + 1)
+            return Broken(f'the slice [{norm(sl)}] drops or re-orders elements', True)
+        return Broken(f'unrecognised derivation {_strip(e)[:70]}', False)
+
+    def accumulator(self, fn, base: str, depth: int):
+        """`base = []` … `for x in S: …; base.append(E)` (one append on every completed iteration)"""
+        inits, appends, other = [], [], None
+        for x in walk_no_nested(fn.node):
+            if isinstance(x, (ast.Assign, ast.AnnAssign)) and getattr(x, 'value', None) is not None:
+                tg = x.targets if isinstance(x, ast.Assign) else [x.target]
+                if any(_is_name(t, base) for t in tg):
+                    inits.append(x)
+                elif any(base in assigned_names(t) for t in tg):
+                    other = 'bound by unpacking'
+                elif any(isinstance(t, ast.Subscript) and _is_name(t.value, base) for t in tg):
+                    other = 'element stores'
+            elif isinstance(x, ast.AugAssign) and _is_name(x.target, base):
+                if isinstance(x.op, ast.Add) and isinstance(x.value, ast.List) and len(x.value.elts) == 1:
+                    appends.append((x, x.value.elts[0]))
+                else:
+                    other = 'augmented assignment'
+            elif isinstance(x, ast.Call) and isinstance(x.func, ast.Attribute) and _is_name(x.func.value, base):
+                a = x.func.attr
+                if a == 'append' and len(x.args) == 1:
+                    appends.append((stmt_of(x), x.args[0]))
+                elif a in ('sort', 'reverse'):
+                    return Broken(f'`{base}.{a}()` re-orders the list in place', True)
+                elif a in MUTATING_METHODS:
+                    other = f'.{a}()'
+            elif isinstance(x, ast.Call) and call_name(x) in ('random.shuffle', 'shuffle') and x.args \
+                    and _is_name(x.args[0], base):
+                return Broken(f'`{call_name(x)}({base})` re-orders the list in place', True)
+            elif isinstance(x, (ast.For, ast.AsyncFor)) and base in assigned_names(x.target):
+                other = 'loop target'
+            elif isinstance(x, ast.Delete) and any(base in {n.id for n in ast.walk(t) if isinstance(n, ast.Name)}
+                                                   for t in x.targets):
+                other = 'del'
+        if other is not None:
+            return Broken(f'`{base}` is also changed by {other}', False)
+        if base in fn.params and not inits and not appends:
+            return Broken(f'parameter `{base}` of {fn.qualname}', False)
+        empty = len(inits) == 1 and ((isinstance(inits[0].value, ast.List) and not inits[0].value.elts)
+                                     or (isinstance(inits[0].value, ast.Call) and call_name(inits[0].value) == 'list'
+                                         and not inits[0].value.args))
+        if not empty or len(appends) != 1:
+            return Broken(f'`{base}` is not a list filled by one append per iteration', False)
+        st, arg = appends[0]
+        loop = parent(st)
+        if not isinstance(loop, (ast.For, ast.AsyncFor)) or not any(st is b for b in loop.body):
+            return Broken(f'the append to `{base}` is conditional', False)
+        if any(isinstance(a, (ast.For, ast.AsyncFor, ast.While)) for a in ancestors(loop)) or loop.orelse:
+            return Broken(f'the loop filling `{base}` is nested', False)
+        if any(isinstance(x, (ast.Break, ast.Continue)) for x in walk_no_nested(loop)):
+            return Broken(f'the loop filling `{base}` can skip iterations (break / continue)', False)
+        try:
+            hits = self.sym(fn, lambda n: n is st).hits
+        except SymUndecided as ex:
+            return Broken(str(ex), False)
+        vals = {norm(h.ev(arg)): h.ev(arg) for h in hits}
+        if len(vals) != 1:
+            return Broken(f'the element appended to `{base}` differs between paths', False)
+        s = self.seq(hits[0].ev(loop.iter), depth + 1)
+        if isinstance(s, Broken):
+            return s
+        self.lists.add(base)
+        return Seq(s.src, self.simp(subst(next(iter(vals.values())), bind_target(loop.target, s.elem, f'@{loop.lineno}'))))
+
+
+def _enclosing_loop(n: ast.AST):
+    return next((a for a in ancestors(n) if isinstance(a, (ast.For, ast.AsyncFor))), None)
+
+
+def _opened_path(e: ast.expr) -> ast.expr | None:
+    """path of the store that e opens (`TrajectoryStore.open(base_file=P)`, `TrajectoryStore(P, …)`)"""
+    if isinstance(e, ast.Call) and (call_name(e).endswith(('.open', '.append')) or call_name(e).endswith('TrajectoryStore')):
+        return arg_or_kw(e, 0, 'base_file')
+    return None
+
+
+def _about_groups(e: ast.AST) -> bool:
+    return any(isinstance(x, ast.Attribute) and x.attr == 'index_group' for x in ast.walk(e))
+
+
+def _decide(ctx, rule, fn, what, s, want_elem=None, line=0):
+    """obligation: `what` is an order-preserving image of the source (optionally with a given element)"""
+    if isinstance(s, Broken):
+        if not s.definite:
+            ctx.undecided(rule, fn, what[:80], s.why)
+        ctx.ob(rule, fn, what, False, s.why, line=line)
+        return False
+    ok = want_elem is None or canon(s.elem) == want_elem
+    ctx.ob(rule, fn, what, ok, f'order-preserving image of {s.src}: {s!r}'[:200] if ok else
+           f'the elements are `{canon(s.elem)}`, expected `{want_elem}`', line=line)
+    return ok
+
+
+# ------------------------------------------------------------------------------------------------ the rules
 
 def run(ctx):
     prog = ctx.prog
     m = prog.module(STORE)
-    mg = m.func('TrajectoryStore.merge')
-    chk = m.func('TrajectoryStore._check_merge_arguments')
-
-    # R1a: _check_merge_arguments returns the caller's list or an ascending expansion
-    rets = [n for n in walk_no_nested(chk.node) if isinstance(n, ast.Return) and n.value is not None]
-    for r in rets:
-        ok = isinstance(r.value, ast.Name) and r.value.id == 'input_stores'
-        ctx.ob('C09-R1', chk, f'return {norm(r.value)}', ok,
-               'returns the input list' if ok else 'returns something other than the input list', line=r.lineno,
-               nontrivial=False)
-    for t, st, how in stores_to(chk.node):
-        if isinstance(t, ast.Name) and t.id == 'input_stores':
-            v = st.value
-            ok = isinstance(v, ast.ListComp) and len(v.generators) == 1 and not v.generators[0].ifs \
-                and isinstance(v.generators[0].iter, ast.Call) and call_name(v.generators[0].iter) == 'range'
-            rng = v.generators[0].iter if ok else None
-            ok = ok and len(rng.args) == 2 and norm(rng.args[0]) == 'input_stores_index_range[0]' \
-                and norm(rng.args[1]) == 'input_stores_index_range[1] + 1'
-            ctx.ob('C09-R1', chk, 'numbered pattern expands to the inclusive ascending range', ok,
-                   norm(v)[:120] if ok else 'pattern expansion is not range(first, last + 1) in ascending order',
-                   line=st.lineno)
-    for c in calls_in(chk.node):
-        if call_name(c).endswith(('.sort', '.reverse')) and 'input_stores' in norm(c.func):
-            ctx.ob('C09-R1', chk, norm(c), False, 'the input list is reordered in place', line=c.lineno)
-
-    # R1b: merge iterates that list unchanged
-    d = [st for t, st, how in stores_to(mg.node) if isinstance(t, ast.Name) and t.id == 'input_stores']
-    ok = len(d) == 1 and isinstance(d[0].value, ast.Call) and call_name(d[0].value).endswith('_check_merge_arguments')
-    ctx.ob('C09-R1', mg, 'input list bound once from _check_merge_arguments', ok,
-           norm(d[0])[:100] if ok else 'input_stores is rebound in merge', line=(d[0].lineno if d else mg.node.lineno))
-    loops = [n for n in walk_no_nested(mg.node) if isinstance(n, ast.For)]
-    role = {}
-    for lp in loops:
-        body = ' '.join(norm(s) for s in lp.body)
-        if 'store_data.append' in body:
-            role['metadata'] = lp
-        if 'os.rename' in body or 'os.replace' in body:
-            role['relocate'] = lp
-    ctx.floor('C09-R1', len(role), 2, 'merge loops (metadata, relocation)')
-    for what, lp in role.items():
-        ok = isinstance(lp.iter, ast.Name) and lp.iter.id == 'input_stores'
-        ctx.ob('C09-R1', mg, f'{what} loop iterates {norm(lp.iter)}', ok,
-               'the list as given' if ok else f'the {what} loop visits the inputs in a different order or subset',
-               line=lp.lineno)
-    for c in calls_in(mg.node):
-        if call_name(c).endswith('_create_merged_store_index'):
-            ok = len(c.args) >= 2 and norm(c.args[1]) == 'input_stores'
-            ctx.ob('C09-R1', mg, f'index builder receives {norm(c.args[1]) if len(c.args) > 1 else "?"}', ok,
-                   'the list as given' if ok else 'the merged index is built over a different order', line=c.lineno)
-    for c in calls_in(mg.node):
-        if call_name(c).endswith(('.sort', '.reverse')) and ('input_stores' in norm(c.func) or 'store_data' in norm(c.func)):
-            ctx.ob('C09-R1', mg, norm(c), False, 'list reordered in place', line=c.lineno)
-    # R4 metadata content
-    mloop = role['metadata']
-    app = [c for s in mloop.body for c in calls_in(s) if call_name(c) == 'store_data.append']
-    ok = False
-    if app and isinstance(app[0].args[0], ast.Tuple) and len(app[0].args[0].elts) == 2:
-        n0, n1 = app[0].args[0].elts
-        ok = norm(n0).endswith('.name') and norm(n1).startswith('len(')
-    ctx.ob('C09-R4', mg, f'store_data.append({norm(app[0].args[0]) if app else "?"})', ok,
-           'records (file name, length) per input in loop order' if ok else 'metadata entry is not (name, length)',
-           line=(app[0].lineno if app else mloop.lineno))
-    rl = role['relocate']
-    dest = [s for s in rl.body if isinstance(s, ast.Assign) and norm(s.targets[0]) == 'dest']
-    ok = bool(dest) and norm(dest[0].value) in ('Path(output_store) / p.name',)
-    ren = [c for s in rl.body for c in calls_in(s) if call_name(c) in ('os.rename', 'os.replace')]
-    ok = ok and bool(ren) and norm(ren[0].args[1]) == 'dest'
-    ctx.ob('C09-R4', mg, 'input moved to <output>/<its own name>', ok,
-           'the name recorded in the metadata is the name it is moved to' if ok else
-           'the relocation target differs from the name recorded in the metadata',
-           line=(ren[0].lineno if ren else rl.lineno))
-    datadef = [st for t, st, how in stores_to(mg.node) if isinstance(t, ast.Name) and t.id == 'data' and how == 'assign']
-    ok = bool(datadef) and isinstance(datadef[0].value, ast.Call) and kwarg(datadef[0].value, 'stores') is not None \
-        and norm(kwarg(datadef[0].value, 'stores')) == 'store_data'
-    ctx.ob('C09-R4', mg, 'metadata stores=store_data', ok,
-           'unchanged list' if ok else 'the metadata `stores` entry is not the list built by the loop',
-           line=(datadef[0].lineno if datadef else mg.node.lineno), nontrivial=False)
-
-    # R1c: _open_merged_store derivations
-    om = m.func('TrajectoryStore._open_merged_store')
-    src = {"metadata['stores']"}
-    ncf = [c for c in calls_in(om.node) if call_name(c).endswith('NcFiles')]
-    if len(ncf) != 1:
-        ctx.undecided('C09-R1', om, 'NcFiles(...)', f'{len(ncf)} construction sites')
-    for kw in ('path', 'dataset', 'traj_dim', 'traj_var', 'size_index'):
-        v = kwarg(ncf[0], kw)
-        if v is None:
-            ctx.undecided('C09-R1', om, kw, 'not passed by keyword')
-        ok, why = order_preserving(v, src, om.node)
-        ctx.ob('C09-R1', om, f'{kw} = {norm(v)[:60]} follows metadata order', ok,
-               f'order-preserving image of {why}' if ok else why, line=v.lineno)
-    gv = kwarg(ncf[0], 'groups')
-    gstores = [st for t, st, how in stores_to(om.node) if isinstance(t, ast.Subscript) and norm(t.value) == norm(gv)]
-    for st in gstores:
-        ok, why = order_preserving(st.value, src, om.node)
-        ctx.ob('C09-R1', om, f'{norm(st.targets[0])} = {norm(st.value)[:50]} follows metadata order', ok,
-               f'order-preserving image of {why}' if ok else why, line=st.lineno)
-    sz = kwarg(ncf[0], 'size_index')
-    ok = 'accumulate' in norm(sz) and 'len(' in norm(sz)
-    ctx.ob('C09-R1', om, 'size table = running sum of per-file lengths', ok,
-           norm(sz) if ok else 'size table is not the cumulative sum of the file lengths', line=sz.lineno)
-
-    # R2 refusals present
-    want = [('field sets differ', lambda t: 'fieldset_names !=' in t or '!= fieldset_names' in t),
-            ('mixed identifier use', lambda t: 'indexable' in t and 'any(' in t)]
-    for what, pred in want:
-        hit = None
-        for n in walk_no_nested(mg.node):
-            if isinstance(n, ast.Raise) and any(pred(norm(t)) and pol for t, pol, _ in guards_of(n)):
-                hit = n
-        ctx.ob('C09-R2', mg, f'refusal: {what}', hit is not None,
-               f'raise at line {hit.lineno}' if hit else f'merge no longer refuses when {what}',
-               line=(hit.lineno if hit else mg.node.lineno), nontrivial=False)
-    fsn = [st for t, st, how in stores_to(mg.node) if isinstance(t, ast.Name) and t.id == 'fieldset_names' and
-           not (isinstance(st.value, ast.Constant))]
-    ok = bool(fsn) and 'ts._nc' in norm(fsn[0].value) and any('fieldset_names is None' in norm(t) for t, _, _ in guards_of(fsn[0]))
-    ctx.ob('C09-R2', mg, 'reference field sets taken from the first input only', ok,
-           norm(fsn[0])[:80] if ok else 'the reference field-set name set is rebound on later inputs',
-           line=(fsn[0].lineno if fsn else mg.node.lineno))
-
-    # R3 locate arithmetic
-    ld = m.func('TrajectoryStore._load_trajectory')
-    bis = [c for c in calls_in(ld.node) if call_name(c).split('.')[-1] in ('bisect_left', 'bisect_right', 'bisect')]
-    if len(bis) != 1:
-        ctx.undecided('C09-R3', ld, 'bisect', f'{len(bis)} bisect calls')
-    b = bis[0]
-    idx = ld.params[1]
-    fn = call_name(b).split('.')[-1]
-    a1 = norm(b.args[1])
-    good = (fn == 'bisect_left' and a1 in (f'{idx} + 1', f'1 + {idx}')) or (fn in ('bisect_right', 'bisect') and a1 == idx)
-    bad = (fn == 'bisect_left' and a1 == idx) or (fn in ('bisect_right', 'bisect') and a1 in (f'{idx} + 1',))
-    if not good and not bad:
-        ctx.undecided('C09-R3', ld, norm(b), 'bisect form not recognised')
-    ok = good and 'size_index' in norm(b.args[0])
-    ctx.ob('C09-R3', ld, norm(b), ok,
-           'first file whose cumulative count exceeds the index' if ok else
-           'off by one: an index equal to a cumulative count is located in the wrong file', line=b.lineno)
-    fvar = stmt_of(b).targets[0].id
-    bound = None
-    for n in walk_no_nested(ld.node):
-        if isinstance(n, ast.If) and f'{fvar} >= len(' in norm(n.test) and 'size_index' in norm(n.test):
-            if isinstance(first_stmt(n.body), (ast.Return, ast.Raise)):
-                bound = n
-    users = [n for n in walk_no_nested(ld.node) if isinstance(n, ast.Subscript) and norm(n.slice) == fvar]
-    ok = bound is not None and all(u.lineno > bound.lineno for u in users)
-    ctx.ob('C09-R3', ld, 'file index bounded before use', ok,
-           f'`{norm(bound.test)}` exits before {len(users)} uses' if ok else
-           'an index past the last file is used to subscript the file lists')
-    gi = [st for t, st, how in stores_to(ld.node) if isinstance(t, ast.Name) and t.id == 'group_index'
-          and any(isinstance(a, ast.If) and 'size_index' in norm(a.test) for a in _anc(st))]
-    ok = False
-    if gi:
-        v = norm(gi[0].value)
-        ok = v == f'{idx} - nc_files.size_index[{fvar}]' or \
-            (f'size_index[{fvar} - 1]' in v and v.startswith(f'{idx} -'))
-        if not ok and not v.startswith(f'{idx}'):
-            pass
-    ctx.ob('C09-R3', ld, f'local index = {norm(gi[0].value) if gi else "?"}', ok,
-           'index relative to the located file (negative offset from its cumulative end, or minus the preceding count)'
-           if ok else 'local index arithmetic does not select the record inside the located file',
-           line=(gi[0].lineno if gi else ld.node.lineno))
-    grp = [st for t, st, how in stores_to(ld.node) if isinstance(t, ast.Name) and t.id == 'group']
-    ok = bool(grp) and norm(grp[0].value).endswith(f'[{fvar}]') and 'groups[fs_name]' in norm(grp[0].value)
-    ctx.ob('C09-R3', ld, f'group = {norm(grp[0].value) if grp else "?"}', ok,
-           'group of the located file' if ok else 'reads from a group of a different file',
-           line=(grp[0].lineno if grp else ld.node.lineno))
+    rule_check_arguments(ctx, prog, m)
+    mixed_refused = rule_refusals(ctx, prog, m)
+    rule_merge(ctx, prog, m, mixed_refused)
+    rule_open_merged(ctx, prog, m)
+    # R3 locate arithmetic (symbolic paths; see rule_locate_arith)
+    rule_locate_arith(ctx, prog, m)
     # R5 flight-identifier lookup across parts: the merged index offsets (shared with C08-R3)
-    # R6: writer/reader agreement on the merged index: it is built exactly when the inputs are identified
-    call_sites = [c for c in calls_in(mg.node) if call_name(c).endswith('_create_merged_store_index')]
-    ctx.floor('C09-R6', len(call_sites), 1, 'merged-index creation sites in merge')
-    for c in call_sites:
-        gs = [(norm(t), pol) for t, pol, _ in guards_of(stmt_of(c))]
-        ok = gs == [('indexable', True)]
-        ctx.ob('C09-R6', mg, f'merged index built under {gs}', ok,
-               'built for every identified merge (the reader looks for the merged index only)' if ok else
-               ('the merged index is not built for every merge of identified stores: the reader of a merged store only '
-                'consults the merged index file, so such a store opens as not indexable and look-ups by flight identifier '
-                'fail although every input had identifiers'), line=c.lineno)
     from .c08 import rule_offsets
     rule_offsets(ctx, m, rule='C09-R5')
     ctx.assumptions += ['netCDF4 resolves a negative record index against the (static) dimension length of a read-only file']
 
 
-def _anc(n):
-    from ..astutil import ancestors
-    return list(ancestors(n))
+def rule_check_arguments(ctx, prog, m):
+    """R1a: what _check_merge_arguments returns"""
+    chk = m.func('TrajectoryStore._check_merge_arguments')
+    cands = [p for p in chk.params if 'stores' in p and 'pattern' not in p and 'range' not in p]
+    lst = cands[0] if cands else (chk.params[1] if len(chk.params) > 1 else None)
+    prov = Prov(ctx, prog, m, chk, lambda e: 'the input list' if _is_name(e, lst) else None)
+    try:
+        sym = prov.sym(chk)
+    except SymUndecided as ex:
+        ctx.undecided('C09-R1', chk, 'returns', str(ex))
+    rets = [r for r in sym.returns if r[2] is not None]
+    ctx.floor('C09-R1', len(rets), 1, 'returns of _check_merge_arguments')
+    for st, v, stmt in rets:
+        rng = None
+        if isinstance(v, (ast.ListComp, ast.GeneratorExp)) and len(v.generators) == 1 and not v.generators[0].ifs \
+                and isinstance(v.generators[0].iter, ast.Call) and call_name(v.generators[0].iter) == 'range':
+            rng = v.generators[0].iter
+        if rng is not None:
+            ok = None
+            if len(rng.args) == 2 and isinstance(rng.args[0], ast.Subscript) and isinstance(rng.args[0].slice, ast.Constant):
+                P = rng.args[0].value
+                d0 = rng.args[0].slice.value
+                hi = ast.Subscript(value=P, slice=ast.Constant(value=1), ctx=ast.Load())
+                d = _diff(rng.args[1], hi)
+                if isinstance(P, ast.Name) and P.id in chk.params and d is not None:
+                    ok = d0 == 0 and d == 1
+            elif len(rng.args) == 3:
+                d = _nf(rng.args[2])
+                if d is not None and d.is_const() and d.const() < 0:
+                    ok = False
+            if ok is None:
+                ctx.undecided('C09-R1', chk, _strip(rng), 'pattern expansion range not recognised')
+            ctx.ob('C09-R1', chk, 'numbered pattern expands to the inclusive ascending range', ok,
+                   _strip(v)[:120] if ok else 'pattern expansion is not range(first, last + 1) in ascending order',
+                   line=stmt.lineno)
+            continue
+        s = prov.seq(v)
+        if isinstance(s, Broken) and not s.definite:
+            ctx.undecided('C09-R1', chk, _strip(v)[:80], s.why)
+        ok = isinstance(s, Seq) and canon(s.elem) == ELEM
+        ctx.ob('C09-R1', chk, f'return {_strip(v)[:80]}', ok,
+               'returns the input list' if ok else 'returns something other than the input list in the order given: '
+               + (s.why if isinstance(s, Broken) else f'elements {canon(s.elem)}'), line=stmt.lineno, nontrivial=not ok)
+    for x in walk_no_nested(chk.node):
+        if isinstance(x, ast.Call) and isinstance(x.func, ast.Attribute) and x.func.attr in ('sort', 'reverse') \
+                and _is_name(x.func.value, lst):
+            ctx.ob('C09-R1', chk, norm(x), False, 'the input list is reordered in place', line=x.lineno)
+
+
+def _merge_prov(ctx, prog, m):
+    mg = m.func('TrajectoryStore.merge')
+    chk = m.func('TrajectoryStore._check_merge_arguments')
+
+    def root(e):
+        return 'the checked input list' if isinstance(e, ast.Call) and call_name(e).split('.')[-1] == chk.name else None
+    return mg, Prov(ctx, prog, m, mg, root, opaque={chk.name})
+
+
+def rule_merge(ctx, prog, m, mixed_refused=False):
+    """R1b, R4, R6: the metadata document, the relocation and the index builder in merge"""
+    mg, prov = _merge_prov(ctx, prog, m)
+    out_param = mg.params[0]
+
+    # --- the `stores` entry of the metadata document ------------------------------------------------------
+    def stores_entry(n):
+        if isinstance(n, ast.Call) and call_name(n) == 'dict' and kwarg(n, 'stores') is not None:
+            return kwarg(n, 'stores')
+        if isinstance(n, ast.Dict):
+            for k, v in zip(n.keys, n.values):
+                if isinstance(k, ast.Constant) and k.value == 'stores':
+                    return v
+        if isinstance(n, ast.Assign) and any(isinstance(t, ast.Subscript) and isinstance(t.slice, ast.Constant)
+                                             and t.slice.value == 'stores' for t in n.targets):
+            return n.value
+        return None
+
+    try:
+        docs = prov.sym(mg, lambda n: stores_entry(n) is not None).hits
+    except SymUndecided as ex:
+        ctx.undecided('C09-R1', mg, 'metadata document', str(ex))
+    ctx.floor('C09-R4', len(docs), 1, 'metadata documents with a `stores` entry written by merge')
+    recorded = None
+    seen_docs = set()
+    for h in docs:
+        val = h.ev(stores_entry(h.node))
+        if (id(h.node), norm(val)) in seen_docs:
+            continue
+        seen_docs.add((id(h.node), norm(val)))
+        s = prov.seq(val)
+        if not _decide(ctx, 'C09-R1', mg, 'metadata `stores` lists the inputs in the order given', s, line=h.node.lineno):
+            continue
+        el = s.elem
+        ok = isinstance(el, (ast.Tuple, ast.List)) and len(el.elts) == 2
+        name_ok = len_ok = False
+        if ok:
+            recorded = el.elts[0]
+            name_ok = canon(el.elts[0]) == f'{ELEM}.name'
+            ln = el.elts[1]
+            opened = _opened_path(ln.args[0]) if isinstance(ln, ast.Call) and call_name(ln) == 'len' and len(ln.args) == 1 else None
+            len_ok = opened is not None and canon(opened) == ELEM
+        ctx.ob('C09-R4', mg, 'metadata entry per input = (file name, length of that input)', ok and name_ok and len_ok,
+               f'records {_strip(el)[:120]} per input in loop order' if ok and name_ok and len_ok else
+               f'metadata entry is not (name of the input, length of the input): `{_strip(el)[:120]}`', line=h.node.lineno)
+
+    # --- relocation ------------------------------------------------------------------------------------------
+    def is_move(n):
+        return isinstance(n, ast.Call) and (call_name(n) in ('os.rename', 'os.replace', 'shutil.move', 'os.renames')
+                                            or (isinstance(n.func, ast.Attribute) and n.func.attr in ('rename', 'replace')
+                                                and len(n.args) == 1 and not call_name(n).startswith(('os.', 'str.'))))
+
+    try:
+        moves = prov.sym(mg, is_move).hits
+    except SymUndecided as ex:
+        ctx.undecided('C09-R1', mg, 'relocation', str(ex))
+    ctx.floor('C09-R1', len(moves), 1, 'relocation calls (rename / replace / move) in merge')
+    seen = set()
+    for h in moves:
+        c = h.node
+        if id(c) in seen:
+            continue
+        seen.add(id(c))
+        loop = _enclosing_loop(c)
+        if loop is None:
+            ctx.undecided('C09-R1', mg, norm(c)[:80], 'relocation outside a loop over the inputs')
+        it = h.ev(loop.iter)
+        while isinstance(it, ast.Call) and call_name(it) in ('sorted', 'reversed', 'set', 'frozenset', 'list', 'tuple') and it.args:
+            it = it.args[0]      # the order in which the files are moved does not matter
+        s = prov.seq(it)
+        if isinstance(s, Broken):
+            if not s.definite:
+                ctx.undecided('C09-R1', mg, _strip(it)[:80], s.why)
+            ctx.ob('C09-R1', mg, 'relocation visits every input', False,
+                   f'the relocation loop visits the inputs in a different subset: {s.why}', line=loop.lineno)
+            continue
+        ctx.ob('C09-R1', mg, 'relocation visits every input', True, f'loop over {s!r}'[:160], line=loop.lineno)
+        b = bind_target(loop.target, s.elem, f'@{loop.lineno}')
+        if call_name(c) in ('os.rename', 'os.replace', 'shutil.move', 'os.renames'):
+            a_src, a_dst = arg_or_kw(c, 0, 'src'), arg_or_kw(c, 1, 'dst')
+        else:
+            a_src, a_dst = c.func.value, c.args[0]
+        src = canon(prov.simp(subst(h.ev(a_src), b)))
+        dst = prov.simp(subst(h.ev(a_dst), b))
+        want = f'{out_param} / {canon(recorded)}' if recorded is not None else None
+        ok = src == ELEM and want is not None and canon(dst) == want
+        ctx.ob('C09-R4', mg, 'input moved to <output>/<the name recorded for it>', ok,
+               f'moves {src} to {canon(dst)}' if ok else
+               f'the relocation moves `{src}` to `{canon(dst)}`; the metadata records `{canon(recorded) if recorded is not None else "?"}` '
+               f'inside `{out_param}`: the relocation target differs from the name recorded in the metadata', line=c.lineno)
+
+    # --- the merged-index builder: which list, under which condition ----------------------------------------
+    builder = m.func('TrajectoryStore._create_merged_store_index')
+
+    def is_build(n):
+        return isinstance(n, ast.Call) and call_name(n).split('.')[-1] == builder.name
+
+    try:
+        builds = prov.sym(mg, is_build).hits
+    except SymUndecided as ex:
+        ctx.undecided('C09-R6', mg, 'index builder', str(ex))
+    ctx.floor('C09-R6', len({id(h.node) for h in builds}), 1, 'merged-index creation sites in merge')
+    done = set()
+    for h in builds:
+        c = h.node
+        if id(c) in done:
+            continue
+        done.add(id(c))
+        a = arg_or_kw(c, 1, builder.params[1])
+        if a is None:
+            ctx.undecided('C09-R1', mg, norm(c)[:80], 'cannot tell the list argument of the index builder')
+        _decide(ctx, 'C09-R1', mg, 'index builder receives the inputs in the order given', prov.seq(h.ev(a)),
+                want_elem=ELEM, line=c.lineno)
+        # R6
+        problems, unknown, conds = [], [], []
+        for t, pol, _ in guards_of(stmt_of(c)):
+            for atom, p in conjuncts(h.ev(t), pol):
+                conds.append(('' if p else 'not ') + _strip(atom)[:60])
+                v = _every_input_identified(prov, atom, p)
+                if v is True:
+                    continue
+                nt = _none_test(canon_fact(atom, p)[2])
+                if nt is not None and _is_group_element(prov, nt[0]) and nt[1] != canon_fact(atom, p)[1] and mixed_refused:
+                    continue        # one input is identified, and mixed inputs were refused before: all of them are
+                n_ok = _holds_for_every_count(prov, atom, p)
+                if n_ok is True:
+                    continue
+                if n_ok is False:
+                    problems.append(f'`{"" if p else "not "}{_strip(atom)}` does not hold for every number of inputs')
+                elif v is False:
+                    problems.append(f'`{"" if p else "not "}{_strip(atom)}` is not "every input is identified"')
+                else:
+                    unknown.append(_strip(atom))
+        if not problems and unknown:
+            ctx.undecided('C09-R6', mg, unknown[0][:80], 'guard of the index builder not recognised')
+        if not problems and not conds:
+            ctx.undecided('C09-R6', mg, norm(c)[:60], 'the index builder runs unconditionally')
+        ok = not problems
+        ctx.ob('C09-R6', mg, 'merged index built exactly when every input is identified', ok,
+               f'built under {conds}: for every identified merge (the reader looks for the merged index only)' if ok else
+               (f'{problems[0]}: the merged index is not built for every merge of identified stores: the reader of a merged '
+                'store only consults the merged index file, so such a store opens as not indexable and look-ups by flight '
+                'identifier fail although every input had identifiers'), line=c.lineno)
+
+    # --- nothing re-orders the lists in place ------------------------------------------------------------------
+    for x in walk_no_nested(mg.node):
+        if isinstance(x, ast.Call) and isinstance(x.func, ast.Attribute) and x.func.attr in ('sort', 'reverse') \
+                and isinstance(x.func.value, ast.Name):
+            nm = x.func.value.id
+            holds = nm in prov.lists or any(isinstance(s, ast.Assign) and any(_is_name(t, nm) for t in s.targets)
+                                            and prov.root(s.value) is not None for s in walk_no_nested(mg.node))
+            if holds:
+                ctx.ob('C09-R1', mg, norm(x), False, 'list reordered in place', line=x.lineno)
+
+
+def _none_test(e: ast.expr):
+    """(X, is_none) when e is `X is None` / `X is not None` / `X == None`, else None"""
+    k, pol, ce = canon_fact(e, True)
+    if isinstance(ce, ast.Compare) and isinstance(ce.ops[0], (ast.Is, ast.Eq)) \
+            and isinstance(ce.comparators[0], ast.Constant) and ce.comparators[0].value is None:
+        return ce.left, pol
+    return None
+
+
+def _identified_aggregate(prov, e: ast.expr):
+    """('all' | 'any', polarity of "is identified") when e is all(/any(<elem None-test> for elem in <index groups of the
+    inputs>), else None"""
+    if not (isinstance(e, ast.Call) and call_name(e) in ('all', 'any') and len(e.args) == 1
+            and isinstance(e.args[0], (ast.GeneratorExp, ast.ListComp))):
+        return None
+    s = prov.seq(e.args[0])
+    if isinstance(s, Broken):
+        return None
+    nt = _none_test(s.elem)
+    if nt is None or not _about_groups(nt[0]):
+        return None
+    return call_name(e), (not nt[1])
+
+
+def _every_input_identified(prov, atom: ast.expr, pol: bool):
+    """True: the fact `atom is pol` says exactly "every input has an identifier index"; False: it is about the index
+    groups but says something else; None: not about them"""
+    k, p, ce = canon_fact(atom, pol)
+    ag = _identified_aggregate(prov, ce)
+    if ag is not None:
+        fn, identified = ag
+        # all(g is not None) true  |  any(g is None) false
+        return bool((fn == 'all' and identified and p) or (fn == 'any' and not identified and not p))
+    if _about_groups(ce):
+        return False
+    return None
+
+
+def _holds_for_every_count(prov, atom: ast.expr, pol: bool):
+    """a guard that only depends on the number of inputs: does it hold for 1, 2, 3, … inputs?"""
+    lens = []
+
+    class T(ast.NodeTransformer):
+        def visit_Call(self, n):
+            if call_name(n) == 'len' and len(n.args) == 1 and isinstance(prov.seq(n.args[0]), Seq):
+                lens.append(n)
+                return ast.Name(id='n', ctx=ast.Load())
+            return self.generic_visit(n)
+    e = T().visit(copy.deepcopy(atom))
+    if not lens:
+        if isinstance(prov.seq(atom), Seq):     # truthiness of the list itself: at least one input
+            return pol
+        return None
+    try:
+        return all(bool(eval_pred(e, {'n': n})) == pol for n in range(1, 7))
+    except (ValueError, TypeError):
+        return None
+
+
+def rule_open_merged(ctx, prog, m):
+    """R1c: everything _open_merged_store hands to NcFiles follows metadata['stores']"""
+    om = m.func('TrajectoryStore._open_merged_store')
+
+    def root(e):
+        if isinstance(e, ast.Subscript) and isinstance(e.slice, ast.Constant) and e.slice.value == 'stores':
+            return "metadata['stores']"
+        if isinstance(e, ast.Call) and isinstance(e.func, ast.Attribute) and e.func.attr == 'get' and e.args \
+                and isinstance(e.args[0], ast.Constant) and e.args[0].value == 'stores':
+            return "metadata['stores']"
+        return None
+    prov = Prov(ctx, prog, m, om, root)
+
+    def is_files(n):
+        if not isinstance(n, ast.Call):
+            return False
+        k = resolve_class_call(prog, om, n)
+        return k is not None and k.name.split('.')[-1] == 'NcFiles'
+
+    try:
+        hits = prov.sym(om, is_files).hits
+    except SymUndecided as ex:
+        ctx.undecided('C09-R1', om, 'NcFiles(...)', str(ex))
+    sites = {id(h.node) for h in hits}
+    if len(sites) != 1:
+        ctx.undecided('C09-R1', om, 'NcFiles(...)', f'{len(sites)} construction sites')
+    h = hits[0]
+    c = h.node
+    images = {}
+    for kw in ('path', 'dataset', 'traj_dim', 'traj_var'):
+        v = kwarg(c, kw)
+        if v is None:
+            ctx.undecided('C09-R1', om, kw, 'not passed by keyword')
+        s = prov.seq(h.ev(v))
+        images[kw] = s
+        _decide(ctx, 'C09-R1', om, f'{kw} follows metadata order', s, line=v.lineno)
+    # groups: every list of groups follows the datasets
+    gv = kwarg(c, 'groups')
+    if gv is None:
+        ctx.undecided('C09-R1', om, 'groups', 'not passed by keyword')
+    g = h.ev(gv)
+    lists = []
+    if isinstance(g, ast.DictComp):
+        lists = [g.value]
+    elif isinstance(g, ast.Dict):
+        lists = list(g.values)
+    elif isinstance(g, ast.Name):
+        base, fn = _base_id(g.id), prov.origin.get(g.id, om)
+        for x in walk_no_nested(fn.node):
+            if isinstance(x, ast.Assign) and any(isinstance(t, ast.Subscript) and _is_name(t.value, base) for t in x.targets):
+                try:
+                    for hh in prov.sym(fn, lambda n, x=x: n is x).hits[:1]:
+                        lists.append(hh.ev(x.value))
+                except SymUndecided as ex:
+                    ctx.undecided('C09-R1', om, 'groups', str(ex))
+            elif isinstance(x, (ast.Assign, ast.AnnAssign)) and getattr(x, 'value', None) is not None \
+                    and any(_is_name(t, base) for t in (x.targets if isinstance(x, ast.Assign) else [x.target])) \
+                    and isinstance(x.value, ast.DictComp):
+                lists.append(x.value.value)
+    if not lists:
+        ctx.undecided('C09-R1', om, f'groups = {_strip(g)[:60]}', 'cannot tell how the group lists are built')
+    for lv in lists:
+        _decide(ctx, 'C09-R1', om, f'groups[...] = {_strip(lv)[:50]} follows metadata order', prov.seq(lv),
+                line=getattr(lv, 'lineno', c.lineno))
+    # size table: running sum of the lengths of exactly the stored dimensions
+    sz = kwarg(c, 'size_index')
+    if sz is None:
+        ctx.undecided('C09-R1', om, 'size_index', 'not passed by keyword')
+    e = h.ev(sz)
+    while isinstance(e, ast.Call) and call_name(e) in ('list', 'tuple') and len(e.args) == 1:
+        e = e.args[0]
+    running = isinstance(e, ast.Call) and call_name(e).split('.')[-1] in ('accumulate', 'cumsum') and len(e.args) == 1 \
+        and not any(k.arg in ('func', 'initial') for k in e.keywords)
+    if not running:
+        s = prov.seq(e)
+        if isinstance(s, Broken) and not s.definite:
+            ctx.undecided('C09-R1', om, _strip(e)[:80], 'size table is not a recognised running sum')
+        ctx.ob('C09-R1', om, 'size table = running sum of per-file lengths', False,
+               'size table is not the cumulative sum of the file lengths', line=sz.lineno)
+        return
+    s = prov.seq(e.args[0])
+    if _decide(ctx, 'C09-R1', om, 'size_index follows metadata order', s, line=sz.lineno):
+        dim = images.get('traj_dim')
+        ok = isinstance(dim, Seq) and isinstance(s.elem, ast.Call) and call_name(s.elem) == 'len' \
+            and len(s.elem.args) == 1 and norm(s.elem.args[0]) == norm(dim.elem)
+        ctx.ob('C09-R1', om, 'size table = running sum of per-file lengths', ok,
+               f'accumulate of {_strip(s.elem)[:80]} per file' if ok else
+               f'the size table sums `{_strip(s.elem)[:80]}`, not the length of the trajectory dimension stored for the '
+               f'same file: size table is not the cumulative sum of the file lengths', line=sz.lineno)
+
+
+def rule_refusals(ctx, prog, m):
+    """R2: differing field sets and mixed identifier use are refused"""
+    mg, prov = _merge_prov(ctx, prog, m)
+    try:
+        sym = prov.sym(mg)
+    except SymUndecided as ex:
+        ctx.undecided('C09-R2', mg, 'refusals', str(ex))
+
+    def facts_of(r):
+        """facts of a raise path, with the loop targets of the enclosing loop replaced by the element they stand for"""
+        st, exc, stmt, rs = r
+        loop = _enclosing_loop(stmt)
+        b = {}
+        if loop is not None:
+            s = prov.seq(rs.ev(loop.iter, st.fork()))
+            if isinstance(s, Seq):
+                b = bind_target(loop.target, s.elem, f'@{loop.lineno}')
+        return [(prov.simp(subst(e, b)), p) for k, p, e in st.facts]
+
+    raises = list(sym.raises)
+
+    # ---- field sets ------------------------------------------------------------------------------------------
+    def mentions_nc(e):
+        return any(isinstance(x, ast.Attribute) and x.attr in ('_nc', 'fieldsets') for x in ast.walk(e))
+
+    verdict, where, ref_name, self_cmp = None, None, None, None
+    for r in raises:
+        for e, p in facts_of(r):
+            if not mentions_nc(e):
+                continue
+            k, pol, ce = canon_fact(e, p)
+            where = where or r[2]
+            if isinstance(ce, ast.Compare) and isinstance(ce.ops[0], ast.Eq) and not pol:
+                sides = [ce.left, ce.comparators[0]]
+                refs = [x for x in sides if isinstance(x, ast.Name) and '@' in x.id]
+                curs = [x for x in sides if mentions_nc(x)]
+                if len(refs) == 1 and len(curs) == 1:
+                    verdict, ref_name, where = True, refs[0], r[2]
+                elif norm(sides[0]) == norm(sides[1]):
+                    self_cmp = r[2]   # (the first-input path compares the just-bound reference with itself)
+                continue
+            sym_diff = (isinstance(ce, ast.BinOp) and isinstance(ce.op, ast.BitXor)) or \
+                (isinstance(ce, ast.Call) and isinstance(ce.func, ast.Attribute) and ce.func.attr == 'symmetric_difference')
+            if sym_diff and pol:
+                refs = [x for x in ast.walk(ce) if isinstance(x, ast.Name) and '@' in x.id]
+                if refs:
+                    verdict, ref_name, where = True, refs[0], r[2]
+                continue
+            one_way = (isinstance(ce, ast.BinOp) and isinstance(ce.op, ast.Sub)) or \
+                (isinstance(ce, ast.Compare) and isinstance(ce.ops[0], (ast.Lt, ast.LtE, ast.Gt, ast.GtE))) or \
+                (isinstance(ce, ast.Call) and isinstance(ce.func, ast.Attribute)
+                 and ce.func.attr in ('issubset', 'issuperset', 'difference', 'isdisjoint'))
+            tagged = any(isinstance(x, ast.Name) and '@' in x.id for x in ast.walk(ce))
+            if one_way and (verdict is None or (isinstance(verdict, tuple) and tagged)):
+                verdict = (False, f'the refusal tests `{"" if pol else "not "}{_strip(ce)[:90]}`: a one-directional comparison, so an '
+                                  f'input with additional (or, the other way round, missing) field sets is accepted')
+                where = r[2]
+    if verdict is None and where is None:
+        ctx.ob('C09-R2', mg, 'refusal: field sets differ', False, 'merge no longer refuses when field sets differ',
+               line=mg.node.lineno, nontrivial=False)
+    elif verdict is None and self_cmp is not None:
+        ctx.ob('C09-R2', mg, 'reference field sets taken from the first input only', False,
+               'the reference field-set name set is rebound on later inputs: on every path the refusal compares the names '
+               'of an input with the reference that was just bound from that same input, so it never fires',
+               line=self_cmp.lineno)
+    elif verdict is None:
+        ctx.undecided('C09-R2', mg, 'refusal: field sets differ', 'a raise depends on the field sets in a form that is not recognised')
+    elif verdict is True:
+        ctx.ob('C09-R2', mg, 'refusal: field sets differ', True, f'raise at line {where.lineno} whenever the names differ '
+               'from the reference', line=where.lineno, nontrivial=False)
+        # the reference is taken from the first input only
+        base = _base_id(ref_name.id)
+        loop = _enclosing_loop(where)
+        binds = [x for x in walk_no_nested(loop if loop is not None else mg.node)
+                 if isinstance(x, (ast.Assign, ast.AnnAssign)) and getattr(x, 'value', None) is not None
+                 and any(_is_name(t, base) for t in (x.targets if isinstance(x, ast.Assign) else [x.target]))]
+        ok, why = bool(binds), 'the reference field-set names are never bound inside the loop'
+        for x in binds:
+            try:
+                hs = prov.sym(mg, lambda n, x=x: n is x).hits
+            except SymUndecided as ex:
+                ctx.undecided('C09-R2', mg, norm(x)[:60], str(ex))
+            for hh in hs:
+                unset = hh.state.fact(f'{ref_name.id} is None') is True or hh.state.fact(ref_name.id) is False
+                if not unset:
+                    ok, why = False, f'`{norm(x)[:70]}` rebinds the reference on later inputs'
+                elif not mentions_nc(hh.ev(x.value)):
+                    ok, why = False, f'`{norm(x)[:70]}` does not bind the field-set names of the input'
+        ctx.ob('C09-R2', mg, 'reference field sets taken from the first input only', ok,
+               f'`{base}` is bound only while it is still unset' if ok else
+               f'the reference field-set name set is rebound on later inputs: {why}',
+               line=(binds[0].lineno if binds else mg.node.lineno))
+    else:
+        ctx.ob('C09-R2', mg, 'refusal: field sets differ', False,
+               'merge no longer refuses when field sets differ: ' + verdict[1], line=where.lineno)
+
+    # ---- identified / unidentified ---------------------------------------------------------------------------
+    covered: set[tuple[bool, bool]] = set()      # (reference input unidentified, this input unidentified)
+    aggregate = False
+    about = None
+    unknown = None
+    MIXED = {'ALL': False, 'ANY': True}      # not every input identified, but some
+
+    def value_in_mixed(ag):
+        """truth value, for a mixed list, of all(/any( over "identified" / "unidentified" """
+        fn, identified = ag
+        if fn == 'all':
+            return MIXED['ALL'] if identified else not MIXED['ANY']
+        return MIXED['ANY'] if identified else not MIXED['ALL']
+
+    for r in raises:
+        agg_facts = []      # truth of each aggregate fact of the path when the inputs are mixed
+        per = []
+        for e, p in facts_of(r):
+            k, pol, ce = canon_fact(e, p)
+            if isinstance(ce, ast.Compare) and isinstance(ce.ops[0], ast.Eq):
+                a, b = _identified_aggregate(prov, ce.left), _identified_aggregate(prov, ce.comparators[0])
+                if a and b:
+                    agg_facts.append((value_in_mixed(a) == value_in_mixed(b)) == pol)
+                    about = about or r[2]
+                    continue
+            ag = _identified_aggregate(prov, ce)
+            if ag is not None:
+                agg_facts.append(value_in_mixed(ag) == pol)
+                about = about or r[2]
+                continue
+            nt = _none_test(ce)
+            if nt is not None and (_about_groups(nt[0]) or _is_group_element(prov, nt[0])):
+                about = about or r[2]
+                cur = any(isinstance(x, ast.Name) and x.id == ELEM for x in ast.walk(nt[0]))
+                per.append((cur, nt[1] == pol))      # (is about the current input, says "unidentified")
+            elif _about_groups(ce):
+                unknown = _strip(ce)
+        # the aggregate tests of this raise path all hold for a mixed list: the path refuses it
+        if agg_facts and all(agg_facts):
+            aggregate, about = True, r[2]
+        if any(c for c, _ in per) and any(not c for c, _ in per):
+            for ref_un in (True, False):
+                for cur_un in (True, False):
+                    if all((cur_un if c else ref_un) == un for c, un in per):
+                        covered.add((ref_un, cur_un))
+    if aggregate or {(True, False), (False, True)} <= covered:
+        ctx.ob('C09-R2', mg, 'refusal: mixed identifier use', True, f'raise at line {about.lineno}', line=about.lineno,
+               nontrivial=False)
+        return True
+    elif covered:
+        missing = {(True, False): 'an unidentified store followed by an identified one',
+                   (False, True): 'an identified store followed by an unidentified one'}
+        miss = [v for k, v in missing.items() if k not in covered]
+        ctx.ob('C09-R2', mg, 'refusal: mixed identifier use', False,
+               f'merge no longer refuses when mixed identifier use: the per-input test does not cover {miss[0]}',
+               line=about.lineno)
+    elif about is None and unknown is None:
+        ctx.ob('C09-R2', mg, 'refusal: mixed identifier use', False, 'merge no longer refuses when mixed identifier use',
+               line=mg.node.lineno, nontrivial=False)
+    else:
+        ctx.undecided('C09-R2', mg, 'refusal: mixed identifier use', f'identifier test not recognised ({unknown or "?"})')
+
+
+def _is_group_element(prov, e: ast.expr) -> bool:
+    """e is one element (constant subscript) of a list whose elements are the index groups of the inputs"""
+    if isinstance(e, ast.Subscript) and isinstance(e.slice, ast.Constant):
+        s = prov.seq(e.value)
+        return isinstance(s, Seq) and _about_groups(s.elem)
+    return False
+
+
+def rule_locate_arith(ctx, prog, m):
+    """C09-R3, decided on the symbolic paths of _load_trajectory to each record read (through guard clauses, tuple
+    returns and helpers): under `size table exists` the file position is the bisect of *that* table for the requested
+    index, it is bounded before use, the group read belongs to the located file of the same file set, and the record
+    index is the requested index relative to that file."""
+    paths, ld = locate_paths(ctx, 'C09-R3', prog, m)
+    idx = ld.params[1]
+    n_table = 0
+    for p in paths:
+        t = p.table_none()
+        others = p.other_tables()
+        if t is True or (t is None and not p.uses_table() and all(pol for _, pol in others)):
+            continue        # direct single-file read: C07-R1c
+        n_table += 1
+        line = p.hit.node.lineno
+        X, F = norm(p.X), p.F
+        # --- which table, which key
+        if not (isinstance(F, ast.Call) and call_name(F).split('.')[-1] in ('bisect_left', 'bisect_right', 'bisect')
+                and len(F.args) >= 2 and not F.keywords):
+            if t is None and others:
+                ctx.ob('C09-R3', ld, f'file position {_strip(F)[:60]}', False,
+                       f'the position is decided by the size table of {_strip(others[0][0])}, the records are read from '
+                       f'the files of {_strip(p.X)}', line=line)
+                continue
+            ctx.undecided('C09-R3', ld, _strip(F)[:80], 'file position is not a bisect of the size table')
+        fn = call_name(F).split('.')[-1]
+        tab, a1 = F.args[0], F.args[1]
+        same = isinstance(tab, ast.Attribute) and tab.attr == 'size_index' and norm(tab.value) == X
+        if not same:
+            ctx.ob('C09-R3', ld, f'{_strip(F)[:80]}', False,
+                   f'the file is located with `{_strip(tab)}` but the records are read from the files of `{_strip(p.X)}`: '
+                   f'a field set whose constituent files have other lengths is read at the wrong position', line=line)
+            continue
+        if t is not False:
+            ctx.undecided('C09-R3', ld, _strip(F)[:80], 'the size table is searched on a path that did not establish that it exists')
+        d = _diff(a1, ast.Name(id=idx, ctx=ast.Load()))
+        if d is None:
+            ctx.undecided('C09-R3', ld, _strip(F)[:80], 'bisect form not recognised')
+        good = (fn == 'bisect_left' and d == 1) or (fn in ('bisect_right', 'bisect') and d == 0)
+        ctx.ob('C09-R3', ld, _strip(F), good,
+               'first file whose cumulative count exceeds the index' if good else
+               'off by one: an index equal to a cumulative count is located in the wrong file', line=line)
+        # --- bound
+        ft = norm(F)
+        bounded = p.state.fact(f'{ft} < len({X}.size_index)') is True \
+            or p.state.fact(f'{ft} == len({X}.size_index)') is False \
+            or p.state.fact(f'{idx} < {X}.size_index[-1]') is True
+        in_try = any(isinstance(a, ast.Try) and any(h.type is None or 'IndexError' in norm(h.type) or 'Exception' in norm(h.type)
+                                                   for h in a.handlers) for a in ancestors(p.hit.node))
+        if not bounded and in_try:
+            ctx.undecided('C09-R3', ld, 'file index bound', 'bound delegated to an exception handler')
+        ctx.ob('C09-R3', ld, 'file index bounded before use', bounded,
+               'a position past the last file leaves before the file lists are subscripted' if bounded else
+               'an index past the last file is used to subscript the file lists', line=line)
+        # --- group of the located file, of the same file set
+        keyed = isinstance(p.X, ast.Subscript) and norm(p.X.slice) == norm(p.K)
+        ctx.ob('C09-R3', ld, f'group = {_strip(p.var)[:70]}', True if keyed or not isinstance(p.X, ast.Subscript) else False,
+               'group of the located file' if keyed or not isinstance(p.X, ast.Subscript) else
+               f'reads the groups of field set `{_strip(p.K)}` from the files of `{_strip(p.X)}`', line=line,
+               nontrivial=keyed)
+        # --- local index
+        S_F = ast.Subscript(value=tab, slice=F, ctx=ast.Load())
+        base = ast.BinOp(left=ast.Name(id=idx, ctx=ast.Load()), op=ast.Sub(), right=S_F)
+        nr, nb = _nf(p.rec), _nf(base)
+        verdict = None
+        if nr is None or nb is None:
+            ctx.undecided('C09-R3', ld, _strip(p.rec)[:80], 'local index arithmetic not recognised')
+        rest = nr - nb
+        own_len = f'len({X}.traj_dim[{ft}])'
+        if rest.is_zero():
+            verdict = (True, 'index relative to the located file (negative offset from its cumulative end)')
+        else:
+            atoms = rest.atoms()
+            strip_own = _nf(ast.parse(_strip(own_len), mode='eval').body)
+            if (rest - strip_own).is_zero():
+                verdict = (True, 'index minus the first index of the located file (cumulative end less its own length)')
+            elif len(atoms) == 1 and 'traj_dim' in next(iter(atoms)) and next(iter(atoms)).startswith('len('):
+                used = [x for x in ast.walk(p.rec) if isinstance(x, ast.Call) and call_name(x) == 'len'
+                        and 'traj_dim' in norm(x)]
+                verdict = (False, f'the start of the located file is computed with `{_strip(used[0]) if used else "?"}`, '
+                                  f'which is not the length of the located file `{_strip(own_len)}`: wrong for every '
+                                  f'file but that one')
+        if verdict is None:
+            # index - size_index[F - 1]  (needs F > 0)   /   index itself (needs F == 0)
+            prev = ast.BinOp(left=ast.Name(id=idx, ctx=ast.Load()), op=ast.Sub(),
+                             right=ast.Subscript(value=tab, slice=ast.BinOp(left=F, op=ast.Sub(), right=ast.Constant(value=1)),
+                                                 ctx=ast.Load()))
+            positive = p.state.fact(f'0 < {ft}') is True or p.state.fact(f'{ft} == 0') is False \
+                or p.state.fact(f'{ft} < 1') is False or p.state.fact(ft) is True
+            zero = p.state.fact(f'0 < {ft}') is False or p.state.fact(f'{ft} == 0') is True \
+                or p.state.fact(f'{ft} < 1') is True or p.state.fact(ft) is False
+            if _same_nf(p.rec, prev):
+                verdict = (True, 'index minus the cumulative count before the located file') if positive else \
+                    (False, 'subtracts size_index[file - 1] also for the first file: size_index[-1] is the total')
+            elif _is_name(p.rec, idx):
+                verdict = (True, 'first file: the index itself') if zero else \
+                    (False, 'the requested index is used unchanged inside a constituent file of a merged store')
+            elif isinstance(p.rec, ast.BinOp) and not any(isinstance(x, ast.Attribute) and x.attr == 'size_index'
+                                                          for x in ast.walk(p.rec)):
+                verdict = (False, 'the local index does not depend on the size table')
+        if verdict is None:
+            ctx.undecided('C09-R3', ld, _strip(p.rec)[:80], 'local index arithmetic not recognised')
+        ctx.ob('C09-R3', ld, f'local index = {_strip(p.rec)[:100]}', verdict[0],
+               verdict[1] if verdict[0] else 'local index arithmetic does not select the record inside the located file: '
+               + verdict[1], line=line)
+    ctx.floor('C09-R3', n_table, 1, 'paths that locate a record through the size table')
+
+
+def _same_nf(a, b) -> bool:
+    na, nb = _nf(a), _nf(b)
+    return na is not None and nb is not None and (na - nb).is_zero()
